@@ -436,3 +436,11 @@ func init() {
 		mutant{Name: "left-operand-computed-in-the-assigned-variable", Prop: "C02", File: "interp/cfg.go", Old: "\t\t\tdefault:\n\t\t\t\t// Allocate a new location in frame, and store the result here.\n\t\t\t\tn.findex = sc.add(n.typ)\n\t\t\t}\n\t\t\tif n.typ != nil && !n.typ.untyped {\n\t\t\t\tfixUntyped(n, sc)\n\t\t\t}\n", New: "\t\t\tcase n.anc.kind == binaryExpr && n.anc.child[0] == n && n.anc.anc.kind == assignStmt && n.anc.anc.nleft == 1 && n.anc.anc.child[0].typ != nil && n.typ != nil && n.anc.anc.child[0].typ.id() == n.typ.id():\n\t\t\t\tn.findex = n.anc.anc.child[0].findex\n\t\t\tdefault:\n\t\t\t\t// Allocate a new location in frame, and store the result here.\n\t\t\t\tn.findex = sc.add(n.typ)\n\t\t\t}\n\t\t\tif n.typ != nil && !n.typ.untyped {\n\t\t\t\tfixUntyped(n, sc)\n\t\t\t}\n", Rule: "R02.20", Key: "cfg/case:binaryExpr/result-location#4/own-or-direct-parent"},
 	)
 }
+
+func init() {
+	addMutants(
+		// round-7 seeds on C03
+		mutant{Name: "exact-check-skipped-for-small-operands", Prop: "C03", File: "interp/typecheck.go", Old: "\t\tv = constant.BinaryOp(x, tok, y)\n\t}\n", New: "\t\tif isInt(t) && 2*constant.BitLen(x) < t.Bits() && 2*constant.BitLen(y) < t.Bits() {\n\t\t\treturn nil\n\t\t}\n\t\tv = constant.BinaryOp(x, tok, y)\n\t}\n", Rule: "R03.17", Key: "typecheck.constExpr/acceptance#7/independent-of-the-operator"},
+		mutant{Name: "shift-folder-answers-large-counts-itself", Prop: "C03", File: "interp/op.go", Old: "\t\tv := constant.Shift(vConstantValue(v0), token.SHR, uint(vUint(v1)))\n", New: "\t\tv := shiftOut(vConstantValue(v0), vUint(v1))\n", Also: [][3]string{{"interp/op.go", "func shrConst(n *node) {\n", "func shiftOut(x constant.Value, s uint64) constant.Value {\n\tif s >= uint64(constant.BitLen(x)) {\n\t\treturn constant.MakeInt64(0)\n\t}\n\treturn constant.Shift(x, token.SHR, uint(s))\n}\n\nfunc shrConst(n *node) {\n"}}, Rule: "R03.21", Key: "shrConst/exact-result-from-go-constant:shiftOut"},
+	)
+}
